@@ -73,6 +73,11 @@ func (s *session) request(ctx context.Context, req *ssh.Request) error {
 			return err
 		}
 
+		if len(cmdline) == 0 {
+			// maincmd.Main expects the program name in args[0]
+			return fmt.Errorf("empty command")
+		}
+
 		s.anonssh.osenv.Logf("cmdline: %q", cmdline)
 		// 2021/09/12 21:25:34 cmdline: ["rsync" "--server" "--daemon" "."]
 		if s.anonssh.anonymous &&
